@@ -267,10 +267,11 @@ class Executor:
         self.lia.s.push()
         return (len(self.pc), dict(self.pc_keys), self.lia.n_extra, len(self.ghyps), len(self.qhyps),
                 {k: (b, dict(d)) for k, (b, d) in self.touched.items()}, len(self.yields), self.depth,
-                self.irel.copy_state())
+                self.irel.copy_state(), dict(self.__dict__.get('_nth_cache', {})))
 
     def _restore(self, snap):
-        npc, keys, n_extra, ng, nq, touched, ny, depth, irel = snap
+        npc, keys, n_extra, ng, nq, touched, ny, depth, irel, nth = snap
+        self._nth_cache = nth
         self.irel.restore_state(irel)
         self.lia.s.pop()
         self.lia.version += 1
@@ -609,6 +610,8 @@ class Executor:
             raise PyRaise('IndexError', 'tuple index out of range')
         if c == 1:
             i = z3.simplify(i + n)
+        if getattr(self, 'nth_by_parts', False):
+            return self._ty_at_parts(ty, i)
         pre, rest = self.ty_split(ty.t, i)
         parts = T._seq_parts(rest)
         if parts and z3.is_app(parts[0]) and parts[0].decl().kind() == z3.Z3_OP_SEQ_UNIT:
@@ -617,6 +620,35 @@ class Executor:
         q = T.fresh('suf', T.TyS)
         self.assume(rest == T.ty_concat(z3.Unit(o), q))
         return VOb(o)
+
+    def _ty_at_parts(self, ty, i):
+        """t[i] for 0 <= i < len(t), t written as x1 ++ .. ++ xk: the part holding index i is chosen by a case split and
+        the element of an atomic part is one constant per (part, index) pair, so that two reads of the same position are
+        the same term (pointwise reasoning about types, L-ext)"""
+        if ty.elems is not None:
+            return self.list_at(ty.elems, i)
+        parts = T._seq_parts(ty.t)
+        if len(parts) > 1:
+            cum, conds, starts = T.I(0), [], []
+            for p_ in parts:
+                ln = T.ty_len(p_)
+                conds.append(z3.And(cum <= i, i < cum + ln))
+                starts.append(cum)
+                cum = z3.simplify(cum + ln)
+            k = self.choose(conds)
+            return self._ty_at_parts(VTy(parts[k]), z3.simplify(i - starts[k]))
+        t = parts[0]
+        if z3.is_app(t) and t.decl().kind() == z3.Z3_OP_SEQ_UNIT:
+            return VOb(t.arg(0))
+        cache = self.__dict__.setdefault('_nth_cache', {})
+        key = (t.sexpr(), z3.simplify(i).sexpr())
+        if key not in cache:
+            o = T.fresh('ob', T.Ob)
+            p_, q = T.fresh('pre', T.TyS), T.fresh('suf', T.TyS)
+            self.assume(t == T.ty_concat(p_, z3.Unit(o), q))
+            self.assume(z3.Length(p_) == i)
+            cache[key] = o
+        return VOb(cache[key])
 
     # ------------------------------------------------------------ truthiness / equality
     def truth(self, v):
@@ -662,6 +694,8 @@ class Executor:
             return a.t == b.t
         if isinstance(a, VOb) and isinstance(b, VOb):
             return a.t == b.t
+        if isinstance(a, VVal) and isinstance(b, VVal):
+            return a.t == b.t
         if isinstance(a, VNone) or isinstance(b, VNone):
             return z3.BoolVal(isinstance(a, VNone) and isinstance(b, VNone))
         if isinstance(a, VStr) and isinstance(b, VStr) and a.s is not None and b.s is not None:
@@ -682,7 +716,25 @@ class Executor:
                 if len(xs) != len(ys):
                     return z3.BoolVal(False)
                 return z3.And(*[self.eq(x, y) for x, y in zip(xs, ys)]) if xs else z3.BoolVal(True)
+            # the full lists of objects of two types: equal exactly when the types are (L-ext)
+            ta, tb = self._whole_type(a), self._whole_type(b)
+            if ta is not None and tb is not None:
+                return T.ty_eq(ta.t, tb.t)
         raise Unsupported('== between %s and %s' % (a.kind, b.kind))
+
+    def _whole_type(self, lst):
+        """the type whose full list of objects `lst` is (tuple(ty._objects) / ty.objects), if it is one"""
+        if lst.is_literal():
+            items = lst.items()
+            if all(isinstance(x, VOb) for x in items):
+                return VTy(T.ty_concat(*[z3.Unit(x.t) for x in items]) if items else T.EMPTY)
+            return None
+        if len(lst.segs) == 1 and lst.segs[0][0] == 'sub':
+            _, base, lo, hi = lst.segs[0]
+            org = getattr(base, 'origin', None)
+            if org is not None and org[0] == 'ty' and T.int_val(lo) == 0 and T.int_val(hi - base.length) == 0:
+                return org[1]
+        return None
 
     def to_real(self, v):
         if isinstance(v, VReal):
@@ -699,7 +751,7 @@ class Executor:
             return
         if isinstance(a, VStr) and (a.s is None or b.s is None):
             return      # names / messages built by str.format are outside the model
-        if isinstance(a, (VInt, VBool, VTy, VBox, VOb, VNone, VStr)):
+        if isinstance(a, (VInt, VBool, VTy, VBox, VOb, VNone, VStr, VVal)):
             self.prove(name, self.eq(a, b))
         elif isinstance(a, VReal):
             self.prove(name, a.t == b.t)
@@ -815,7 +867,9 @@ class Interp:
                 env.set(name, self.eval(default, env, dframe))
             else:
                 raise PyRaise('TypeError', 'missing argument %s of %s' % (name, qualname))
-        if a.vararg and star is not None:
+        if a.vararg and star is not None and isinstance(star.seq, VList):
+            env.set(a.vararg.arg, VList(star.seq.segs, True))       # f(*objects): the tuple of the list's elements
+        elif a.vararg and star is not None:
             env.set(a.vararg.arg, self.world.as_wire_tuple(self, star.seq))
         elif a.vararg:
             env.set(a.vararg.arg, VList.lit(args) if True else None)
@@ -1235,6 +1289,10 @@ class Interp:
                 if len(e.args) == 1 and (isinstance(sv, VTy) or (isinstance(sv, VTuple) and getattr(sv, 'wires', False))):
                     args.append(VStar(sv))        # a tuple of wire values of symbolic length
                     continue
+                if a is e.args[-1] and isinstance(sv, VList) and not sv.is_literal() \
+                        and T.int_val(sv.length()) is None:
+                    args.append(VStar(sv))        # f(*objects) with a list of symbolic length (Ty(*objects))
+                    continue
                 args.extend(self.world.iterate_static(self, sv))
             else:
                 args.append(self.eval(a, env, frame))
@@ -1275,18 +1333,16 @@ class Interp:
                     return rec(gi + 1, env2)
                 return self.eval(e.elt, env2, frame)
             if isinstance(it, VList) and it.is_literal():
-                out = []
+                segs = []
                 for x in it.items():
                     r = body(x)
                     if r is None:
                         continue
                     if gi + 1 < len(gens):
-                        if not r.is_literal():
-                            raise Unsupported('nested comprehension over a symbolic list')
-                        out.extend(r.items())
+                        segs.extend(r.segs)      # the inner clause's list (possibly of symbolic length), in order
                     else:
-                        out.append(r)
-                return VList.lit(out)
+                        segs.append(('lit', [r]))
+                return VList(segs)
             if g.ifs or gi + 1 < len(gens):
                 raise Unsupported('filter / nested clause over a symbolic list')
             # exceptions raised by the body at an arbitrary element
